@@ -13,10 +13,23 @@ run() { # patch id...
   done
 }
 if [ "$what" = mutants ] || [ "$what" = all ]; then
-  grep -v '^#' mutants/MAP.txt | while read p ids; do [ -n "$p" ] && run mutants/$p $ids; done
+  while read p ids; do [ -n "$p" ] && run mutants/$p $ids; done < <(grep -v '^#' mutants/MAP.txt)
 fi
 if [ "$what" = seeded ] || [ "$what" = all ]; then
-  for d in seeded/*/; do id=$(basename $d); run $d/patch.diff ${id%%-*}; done
+  # a seeded change counts as caught when the quick check of at least one property it is aimed at (meta.json) reports it;
+  # changes listed in seeded/NOT_CAUGHT.txt (with the reason) are reported but do not fail the self-test
+  for d in seeded/*/; do
+    id=$(basename $d)
+    props=$(python3 -c "import json,sys; print(json.load(open('$d/meta.json'))['property'])")
+    hit=""
+    for pid in $props; do
+      out=$(./seedtest.sh $d/patch.diff quick "$pid" 2>&1); rc=$?
+      if [ $rc -eq 0 ]; then hit="$hit $pid"; fi
+    done
+    if [ -n "$hit" ]; then echo "CAUGHT  seeded/$id by$hit (aimed at: $props)";
+    elif grep -q "^$id " seeded/NOT_CAUGHT.txt 2>/dev/null; then echo "KNOWN-MISS seeded/$id (see seeded/NOT_CAUGHT.txt)";
+    else echo "MISSED  seeded/$id (aimed at: $props)"; fail=1; fi
+  done
 fi
 if [ "$what" = refactor ] || [ "$what" = all ]; then
   # behaviour-preserving refactors: every check must stay silent (exit 0)
